@@ -482,6 +482,16 @@ func (vc *VC) atCall(fr *Frame, st *State, pc string, short string, ord int, sit
 			continue
 		}
 		cenv := vc.envAt(fr, st)
+		// the actual arguments of the call are visible as arg0, arg1, ... (the receiver of a method call is arg0)
+		if ci, ok := site.(ssa.CallInstruction); ok && !ci.Common().IsInvoke() {
+			for i, a := range ci.Common().Args {
+				t := vc.value(fr, st, a)
+				if t.T == nil {
+					t.T = a.Type()
+				}
+				cenv.vars[fmt.Sprintf("arg%d", i)] = t
+			}
+		}
 		g := vc.evalBool(cenv, as.Cl.Expr)
 		if as.Assume {
 			vc.trusted[fmt.Sprintf("assumed at call %s#%d in %s: %s", short, ord, funcName(fr.fn), as.Cl.Src)] = true
@@ -547,6 +557,10 @@ func (vc *VC) applyContract(fr *Frame, st *State, pc string, callee *ssa.Functio
 	}
 	env2 := &Env{vc: vc, vars: withNamedResults(env.vars, rt, res), cur: st, old: pre, pkg: env.pkg, tpkg: env.tpkg, results: res, calleeMode: true}
 	for _, en := range spec.Ensures {
+		if vc.usesLabels(env2, en.Expr, 0) {
+			// a clause about program points inside the callee (reached / atlabel) says nothing a caller can use: dropped
+			continue
+		}
 		g := vc.evalBool(env2, en.Expr)
 		vc.assume(pc, g)
 	}
@@ -752,6 +766,14 @@ func (vc *VC) evalModTarget(env *Env, e CExpr, src string) []modTarget {
 					}
 				}
 				return ""
+			}
+			if lit, ok := t.Args[0].(CLit); ok && lit.Kind == "str" {
+				// allmem("[]byte"): an unnamed element type, spelled as a Go type expression
+				tv, err := types.Eval(vc.eng.fset, env.typesPkg(), token.NoPos, lit.Val)
+				if err != nil || !tv.IsType() {
+					vc.unsup("modifies %s: %q is not a type here", src, lit.Val)
+				}
+				return []modTarget{{key: vc.memKey(tv.Type), whole: true}}
 			}
 			name := tyName(t.Args[0])
 			tt := env.lookupType(name)
@@ -1233,4 +1255,38 @@ func (vc *VC) sprintf(fr *Frame, st *State, c *ssa.CallCommon) (Term, bool) {
 		res = "(s_cat " + parts[i] + " " + res + ")"
 	}
 	return Term{S: vc.define("fmt", SStr, res), Sort: SStr, T: types.Typ[types.String]}, true
+}
+
+// usesLabels reports whether a contract expression mentions reached(L) or atlabel(L, e), directly or through macros.
+func (vc *VC) usesLabels(env *Env, e CExpr, depth int) bool {
+	if depth > 20 {
+		return false
+	}
+	switch t := e.(type) {
+	case CField:
+		return vc.usesLabels(env, t.X, depth)
+	case CIndex:
+		return vc.usesLabels(env, t.X, depth) || vc.usesLabels(env, t.I, depth)
+	case CSlice:
+		return vc.usesLabels(env, t.X, depth) || (t.Lo != nil && vc.usesLabels(env, t.Lo, depth)) || (t.Hi != nil && vc.usesLabels(env, t.Hi, depth))
+	case CUn:
+		return vc.usesLabels(env, t.X, depth)
+	case CBin:
+		return vc.usesLabels(env, t.L, depth) || vc.usesLabels(env, t.R, depth)
+	case CQuant:
+		return vc.usesLabels(env, t.Body, depth)
+	case CCall:
+		if t.Fn == "reached" || t.Fn == "atlabel" {
+			return true
+		}
+		for _, a := range t.Args {
+			if vc.usesLabels(env, a, depth) {
+				return true
+			}
+		}
+		if m, _ := vc.eng.macro(env, t.Fn); m != nil {
+			return vc.usesLabels(env, m.Body, depth+1)
+		}
+	}
+	return false
 }
